@@ -7,7 +7,8 @@ PROP = {'areas': [{'area': 'engine',
                        'corpus/engine/d21_slow_start_failed_attempt.script',
                        'corpus/engine/d6_ack_timeout_mid_pubrel.script',
                        'corpus/engine/d7_alias_after_failed_validation.script',
-                       'corpus/engine/d9_connack_before_connect_flushed.script'],
+                       'corpus/engine/d9_connack_before_connect_flushed.script',
+                       'corpus/engine/d29_connect311_password_without_username.script'],
             'extra': ['100'],
             'only_prop': 'C07',
             'quick': 12000,
@@ -37,6 +38,27 @@ META = {'design_ref': 'DESIGN.md section 7 / C07',
  'level_note': 'Trusted: Coq kernel; the tie (facade engine.rs, harness, OCaml driver incl. the generator); the reference codec used by the simulated broker '
                '(SpecDecodeC2S / SpecEncodeS2C); abstract component hypotheses of the engine theorems (no-panic of codec / validators / resolvers) are '
                'discharged in the codec / validation / alias developments or stated as premises.',
- 'level_text': "RUN-LEVEL Coq theorems (induction over every event history from the initial state; hypotheses: the component invariants comps_ok - discharged for the concrete engine in the C07_instance_* versions -, ok_cfg, ok_event and, where CONNECT operations are counted, user_ok = no CONNECT packet submitted as a user operation, which the client API cannot produce; its necessity is the witness C07_run_example_user_connect_is_sent): (a) while the CONNACK is awaited a service call seats at most one operation, from the high-priority queue, and it is the non-user CONNECT of this connection attempt whose packet is create_connect; the operation on the encoder before and after the call is that CONNECT; no completion is delivered; no other CONNECT operation exists (C07_run_only_connect_before_connack, C07_run_no_packet_but_connect_before_connack); (b) a connection opening creates exactly the CONNECT at the front of the high-priority queue, no other event creates a CONNECT operation in ANY state, a user-submitted CONNECT is refused unless Connected, and no CONNECT operation exists in any reachable Connected / PendingDisconnect / Disconnected state (C07_opened_creates_the_connect, C07_no_other_connect_creation, C07_user_connect_behaviour, C07_run_no_connect_operation_once_connected); (c) Connected is entered only by inbound data that carries a CONNACK with reason code 0, surfaced as an event, in PendingConnack with connect_in_queue = false, and every reachable Connected state has been Connected ever since that step, with no opening or close in between (C07_connected_entry, C07_run_connected_only_after_connack, C07_run_connected_means_no_open_close, C07_protocol_state_table, C07_state_entry); (d) from a reachable PendingDisconnect or Halted state no event short of a close emits a byte or leaves {PendingDisconnect, Halted}, and the service loop stops at once when the DISCONNECT is completely written (C07_quiet_step, C07_run_nothing_after_disconnect, C07_loop_stops_when_pending_disconnect). The seat trace used in (a) is an instrumented copy of the service loop proved to compute the very same result (C07_service_loop_trace_is_the_loop). ONE-STEP theorems for every state and input: CONNACK in a wrong state / failing code / before the CONNECT is flushed / past the deadline is an error; the CONNECT reflects the options field by field, clean start follows the rejoin table, a server-assigned client id is reused; negotiated settings = CONNACK else CONNECT else default (12 fields); PendingDisconnect, Halted and Disconnected are silent. NOT proved: 'the CONNECT was completely written' is expressed as connect_in_queue = false (the CONNECT operation has left queue, encoder and written-not-completed list; in the abstract model it could also leave by failing last-chance outbound validation, which the real validator never does for a CONNECT); the byte-level wire order per connection stays the monitors mon_c07 / mon_c07_connected on sampled histories",
+ 'level_text': 'RUN-LEVEL Coq theorems (induction over every event history from the initial state; hypotheses: the component invariants comps_ok - discharged '
+               'for the concrete engine in the C07_instance_* versions -, ok_cfg, ok_event and, where CONNECT operations are counted, user_ok = no CONNECT '
+               'packet submitted as a user operation, which the client API cannot produce; its necessity is the witness C07_run_example_user_connect_is_sent): '
+               '(a) while the CONNACK is awaited a service call seats at most one operation, from the high-priority queue, and it is the non-user CONNECT of '
+               'this connection attempt whose packet is create_connect; the operation on the encoder before and after the call is that CONNECT; no completion '
+               'is delivered; no other CONNECT operation exists (C07_run_only_connect_before_connack, C07_run_no_packet_but_connect_before_connack); (b) a '
+               'connection opening creates exactly the CONNECT at the front of the high-priority queue, no other event creates a CONNECT operation in ANY '
+               'state, a user-submitted CONNECT is refused unless Connected, and no CONNECT operation exists in any reachable Connected / PendingDisconnect / '
+               'Disconnected state (C07_opened_creates_the_connect, C07_no_other_connect_creation, C07_user_connect_behaviour, '
+               'C07_run_no_connect_operation_once_connected); (c) Connected is entered only by inbound data that carries a CONNACK with reason code 0, '
+               'surfaced as an event, in PendingConnack with connect_in_queue = false, and every reachable Connected state has been Connected ever since that '
+               'step, with no opening or close in between (C07_connected_entry, C07_run_connected_only_after_connack, C07_run_connected_means_no_open_close, '
+               'C07_protocol_state_table, C07_state_entry); (d) from a reachable PendingDisconnect or Halted state no event short of a close emits a byte or '
+               'leaves {PendingDisconnect, Halted}, and the service loop stops at once when the DISCONNECT is completely written (C07_quiet_step, '
+               'C07_run_nothing_after_disconnect, C07_loop_stops_when_pending_disconnect). The seat trace used in (a) is an instrumented copy of the service '
+               'loop proved to compute the very same result (C07_service_loop_trace_is_the_loop). ONE-STEP theorems for every state and input: CONNACK in a '
+               'wrong state / failing code / before the CONNECT is flushed / past the deadline is an error; the CONNECT reflects the options field by field, '
+               'clean start follows the rejoin table, a server-assigned client id is reused; negotiated settings = CONNACK else CONNECT else default (12 '
+               "fields); PendingDisconnect, Halted and Disconnected are silent. NOT proved: 'the CONNECT was completely written' is expressed as "
+               'connect_in_queue = false (the CONNECT operation has left queue, encoder and written-not-completed list; in the abstract model it could also '
+               'leave by failing last-chance outbound validation, which the real validator never does for a CONNECT); the byte-level wire order per connection '
+               'stays the monitors mon_c07 / mon_c07_connected on sampled histories',
  'technique': 'machine-checked proof in Coq over the engine model + lock-step correspondence of the extracted model with the implementation + extracted '
               'monitors on the implementation trace'}
